@@ -151,6 +151,14 @@ class Gen:
         if r < 0.8:
             return [rng.choice(["min", "max"]), self.num_expr(sc, d - 1), self.num_expr(sc, d - 1)]
         if r < 0.86 and self.ifexpr:
+            q = rng.random()
+            if q < 0.25:
+                # a conditional nested in the THEN branch (or the condition): needs its parentheses when printed
+                x = self.num_leaf(sc)
+                inner = ["if", ["cmp", rng.choice(["<", ">", "<=", ">="]), x, self.num_leaf(sc)],
+                         self.num_expr(sc, max(d - 2, 0)), self.num_expr(sc, max(d - 2, 0))]
+                outer_c = ["cmp", rng.choice(["<", ">", "<=", ">="]), self.num_leaf(sc), self.num_leaf(sc)]
+                return ["if", outer_c, inner, self.num_expr(sc, max(d - 2, 0))]
             return ["if", self.bool_expr(sc, d - 1), self.num_expr(sc, d - 1), self.num_expr(sc, d - 1)]
         if r < 0.92 and sc.arrs:
             a = rng.choice(sorted(sc.arrs))
@@ -464,6 +472,16 @@ class Gen:
             return None
         w = rng.choice(cands)
         k = ["num", rng.choice([0.25, 0.5, 1.5, -0.5])]
+        if rng.random() < 0.3:
+            # two loops and a recurrence that does not commute: the order of the nest is observable
+            c2 = rng.choice([x for x in self.counters if x != c])
+            lo2 = rng.randint(0, 1)
+            hi2 = lo2 + rng.choice([1, 2, 3])
+            hi = max(hi, lo + 2)
+            term = ["+", ["var", c], ["*", ["num", 2], ["var", c2]]]
+            rhs = rng.choice([["+", ["*", ["num", 0.5], ["var", w]], term], ["-", term, ["var", w]]])
+            inner_hi = ["num", hi2] if rng.random() < 0.7 else ["+", ["var", c], ["num", 1]]
+            return [["assign", w, None, rhs, [[c, ["num", lo], ["num", hi]], [c2, ["num", lo2], inner_hi]], self.s(rhs)]]
         term = rng.choice([["*", k, ["var", c]], ["*", ["var", c], k], ["/", ["var", c], ["num", 4]]])
         if rng.random() < 0.7:
             rhs = ["+", ["var", w], term]
